@@ -241,6 +241,25 @@ func (g *gen) set(l string) string {
 	return s + g.ws() + "}"
 }
 
+var soupPool = []string{"(", ")", "{", "}", ",", "==", "!=", "!", "&&", "||", "in", "not in", "notin", "contains", "starts with",
+	"ends with", "has(", "has(a)", "all()", "global()", "a", "b", "has", "in", "'x'", "\"y\"", "''", "'", "\"", "=", "&", "|", "#", "a.b/c-d_e"}
+
+func soup(r *rng) string {
+	n := 1 + r.intn(9)
+	var sb strings.Builder
+	for i := 0; i < n; i++ {
+		sb.WriteString(r.pick(soupPool))
+		switch r.intn(4) {
+		case 0:
+		case 1:
+			sb.WriteString("\t")
+		default:
+			sb.WriteString(" ")
+		}
+	}
+	return sb.String()
+}
+
 const mutAlphabet = "()'\"{},=!&| \tabhsinotcwl\n#\x00\xc3~<>"
 
 func mutate(r *rng, s string) string {
@@ -368,6 +387,63 @@ func hasNotNot(n parser.Node) bool {
 	return false
 }
 
+// collapseBangs mirrors what parseOperation does to the canonical text: outside quoted strings every maximal
+// run of k >= 2 "!" becomes k mod 2 of them.  Used only to recognise the exact shape of the known finding.
+func collapseBangs(t string) string {
+	var out []byte
+	var quote byte
+	for i := 0; i < len(t); {
+		c := t[i]
+		if quote != 0 {
+			out = append(out, c)
+			if c == quote {
+				quote = 0
+			}
+			i++
+			continue
+		}
+		if c == '"' || c == '\'' {
+			quote = c
+			out = append(out, c)
+			i++
+			continue
+		}
+		if c == '!' {
+			j := i
+			for j < len(t) && t[j] == '!' {
+				j++
+			}
+			k := j - i
+			if j < len(t) && t[j] == '=' { // the "!=" operator keeps its own "!"
+				k--
+				if k%2 == 1 {
+					out = append(out, '!')
+				}
+				out = append(out, '!')
+			} else if k%2 == 1 {
+				out = append(out, '!')
+			}
+			i = j
+			continue
+		}
+		out = append(out, c)
+		i++
+	}
+	return string(out)
+}
+
+func sameBools(a, b []bool) bool {
+	if len(a) != len(b) {
+		return false
+	}
+	for i := range a {
+		if a[i] != b[i] {
+			return false
+		}
+	}
+	return true
+}
+
 func observe(s string, maps []map[string]string) (o obs) {
 	defer func() {
 		if e := recover(); e != nil {
@@ -473,6 +549,9 @@ func main() {
 			if r.chance(25) {
 				stream = "mutated"
 				input = mutate(r, input)
+			} else if r.chance(12) {
+				stream = "soup"
+				input = soup(r)
 			}
 		}
 		maps := g.maps()
@@ -504,6 +583,11 @@ func main() {
 		}
 		if o.dneg {
 			tags = append(tags, "not-under-not")
+			// exactly the known finding: still accepted, same meaning, UID is the hash of the text, and the
+			// re-parsed text is the text with its "!" runs collapsed
+			if re.accept && vok && uidOK && sameBools(o.evals, re.evals) && re.text == collapseBangs(o.text) && re.text != o.text {
+				tags = append(tags, "not-under-not:known-shape")
+			}
 		}
 		mixed := false
 		for _, e := range o.evals {
